@@ -8,6 +8,8 @@ Oracle (implementation only, from the property text): after the first StopIterat
 StopIteration again; the helpers return what repeated next() on a fresh instance returns from the same position;
 a copy continues from the position of the original, and advancing one handle never moves another."""
 from pat_common import *
+import re
+from fractions import Fraction
 
 PROP = "C09"
 META = {
@@ -432,7 +434,8 @@ def lib_classes(run):
     """live class list -> (recipes to run, fail-closed problems)"""
     global HELPERS_SOURCE
     drv = open(os.path.join(os.path.dirname(os.path.abspath(__file__)), "impl", "c09_impl.py")).read()
-    HELPERS_SOURCE = drv.split("HELPERS_SOURCE = )[1].split(")[0]
+    q = "'" * 3
+    HELPERS_SOURCE = drv.split("HELPERS_SOURCE = " + q)[1].split(q)[0]
     live = {c["name"]: c for c in run.impl("c09_impl", {"enumerate": True})["classes"]}
     problems = []
     for name, c in sorted(live.items()):
@@ -490,7 +493,7 @@ def check_library(run, model_exprs):
     for e in model_exprs:
         cases.append({"cls": root_cls(e), "src": to_source(e), "finite": True, "script": None, "track": track_cfg(rng), "model": True})
     outs = run_lib(run, cases)
-    seen = {}
+    seen, found, flagged = {}, [], set()
     for c, out in zip(cases, outs):
         run.count(); run.dist("stream.library-track-of-model" if c.get("model") else "stream.library")
         if not c.get("model"):
@@ -507,12 +510,81 @@ def check_library(run, model_exprs):
         if c.get("model") and revives_by_design(model_exprs_by_src[c["src"]]):
             continue
         for sig, doc in bad:
-            key = json.dumps(sig, sort_keys=True)
-            if key in seen:
-                continue
-            seen[key] = 1
-            if len(seen) <= 8:
-                run.violation(sig, doc)
+            if sig["kind"] == "sticky" and out.get("track"):
+                doc["track_over_the_same_pattern"] = {"config": c["track"], "observed": out["track"]}
+            found.append((len(c["src"]), len(found), sig, doc))
+            flagged.add(id(c))
+    check_drained_model(run, cases, outs, {id_ for id_ in flagged})
+    # smallest source first: a nesting that fails because of its input is reported after the input itself
+    for _, _, sig, doc in sorted(found, key=lambda t: t[:2]):
+        key = json.dumps(sig, sort_keys=True)
+        if key in seen:
+            continue
+        seen[key] = 1
+        if len(seen) <= 6:
+            run.violation(sig, doc)
+
+
+DRAINED_HEADER = """From Isobar Require Import Base.Prelude Pat.Chance Pat.Drained.
+Open Scope Z_scope.
+Definition beq_shape (a b : list bool) : bool := list_eqb Bool.eqb a b.
+"""
+RE_SHUFFLE = re.compile(r"^iso\.PShuffle\(\[([0-9, ]*)\], (\d+)\)\.seed\(\d+\)$")
+RE_WHITE = re.compile(r"^iso\.PWhite\([0-9.]+, [0-9.]+, (\d+)\)\.seed\(\d+\)$")
+
+
+def track_budget(cfg, n):
+    """the tick budget the driver gives a track over a stream of n values (same formula as c09_impl.run_track)"""
+    beats = n * cfg["dur"][0] / cfg["dur"][1] + cfg["dur"][0] * cfg["gate"][0] / (cfg["dur"][1] * cfg["gate"][1])
+    return int((beats + 3) * cfg["tpb"]) + 8
+
+
+def check_drained_model(run, cases, outs, flagged):
+    """model vs implementation (Pat/Drained.v, compared inside Coq): (1) a track over a stream of n values plays n
+    notes and leaves the timeline after exactly the number of ticks the model computes; (2) the value/StopIteration
+    shape of LIB_REFN calls of next() on PShuffle(values, repeats) and PWhite(_, _, length)"""
+    terms, owner = [], []
+    for c, out in zip(cases, outs):
+        if id(c) in flagged or out.get("status") or len(out.get("ref", ())) < 2:
+            continue
+        ref = out["ref"]
+        fs = lib_values(ref)
+        t = out.get("track")
+        if t and t.get("mode") and not t.get("error") and fs is not None and judge_sticky(ref) is None:
+            cfg = c["track"]
+            played = t["pulled"] if t["mode"] == "tap" else t["ons"]
+            dur_t, gate4 = Fraction(cfg["dur"][0] * cfg["tpb"], cfg["dur"][1]), Fraction(cfg["gate"][0] * 4, cfg["gate"][1])
+            if dur_t.denominator != 1 or gate4.denominator != 1 or dur_t < 1:
+                run.discard("drained model: duration or gate off the quarter-tick grid")
+            else:
+                end = "Some k => Z.eqb k %d | None => false" % t["ticks"] if t["ended"] else "Some _ => false | None => true"
+                terms.append("(let r := drained_run %d %d %d %d in Z.eqb (fst r) %s && match snd r with %s end)" % (
+                    fs[0], dur_t, gate4, track_budget(cfg, fs[0]), zlit(len(played) if t["ended"] else -1), end))
+                owner.append((c, out, "drained_run: a track over a stream of %d values, duration %s ticks, gate %s/4: notes played and ticks until it leaves Timeline.tracks" % (fs[0], dur_t, gate4)))
+        m, w = RE_SHUFFLE.match(c["src"]), RE_WHITE.match(c["src"])
+        if (m or w) and all(o == "stop" or isinstance(o, dict) for o in ref[1:]):
+            shape = lst([blit(o == "stop") for o in ref[1:]])
+            if m:
+                vals = [int(x) for x in m.group(1).split(",") if x.strip()]
+                terms.append("beq_shape (pshuffle_shape %s %d %d) %s" % (zlist(vals), int(m.group(2)), len(ref) - 1, shape))
+            else:
+                terms.append("beq_shape (pwhite_shape %d %d) %s" % (int(w.group(1)), len(ref) - 1, shape))
+            owner.append((c, out, ("pshuffle_shape" if m else "pwhite_shape") + ": which of the first %d next() raise StopIteration" % (len(ref) - 1)))
+    bad = run.coq_failing(DRAINED_HEADER, terms)
+    run.cov["traces_validated_against_impl"] += len(terms) - len(bad)
+    run.cov["drained_model_comparisons"] = len(terms)
+    seen = set()
+    for i in bad:
+        c, out, what = owner[i]
+        rel = what.split(":")[0]
+        if rel in seen:
+            continue
+        seen.add(rel)
+        run.violation({"kind": "correspondence", "relation": rel, "class": c["cls"]}, {
+            "broken": "correspondence Pat/Drained.v vs the implementation (%s): the theorems C09_drained_track_stays_drained / C09_pshuffle_sticky / C09_pwhite_sticky of Props/C09.v no longer speak about this code" % what,
+            "case": {"src": c["src"], "track": c.get("track")}, "coq_term": terms[i],
+            "observed": {"next": [pretty_obs(o) for o in out["ref"]], "track": out.get("track")},
+            "python": lib_snippet(c["src"], track=c["track"]) if c.get("track") else lib_snippet(c["src"], [("next", 0)] * 12)}, found_input=False)
 
 
 model_exprs_by_src = {}
